@@ -294,7 +294,7 @@ def mentionsNoProxy (c : String) : Bool :=
 theorem C18_sites_gated :
     (∀ r ∈ Gen.privacyGates, sensitive r.site = true → r.conds.any mentionsNoProxy = true) ∧
     (∀ r ∈ Gen.privacyGates, (r.site = "webseedGR" ∨ r.site = "webseedH") →
-        r.conds.contains "!(!hasWebseeds(t))" = true) ∧
+        r.conds.contains "hasWebseeds(t)" = true) ∧
     (∀ r ∈ Gen.privacyGates, r.site = "trackerAnnounce" → r.conds.contains "t.useTrackers" = true) ∧
     (∀ r ∈ Gen.privacyGates, r.site = "dht.Announce" →
         r.conds.contains "!(t.dhtMode <= config.DhtNone)" = true) ∧
